@@ -65,7 +65,7 @@ pub fn tokenize_inline_content(content: &str) -> Result<Vec<Node>, CompilerError
                     .unwrap_or(trimmed_after.len())
             };
             let divert_str = &trimmed_after[..call_len];
-            let divert = parse_divert(divert_str)?;
+            let divert = parse_thread_divert(divert_str)?;
             nodes.push(Node::ThreadDivert(divert));
             // Advance the iterator past the consumed "<-" + leading space + call text
             let consume_end = index + 2 + leading + call_len;
@@ -189,6 +189,12 @@ pub fn parse_dynamic_string(input: &str) -> Result<DynamicString, CompilerError>
 }
 
 pub fn parse_divert(input: &str) -> Result<Divert, CompilerError> {
+    if input.trim().is_empty() {
+        return Err(CompilerError::invalid_source(
+            "expected divert target after '->'".to_owned(),
+        ));
+    }
+
     if let Some((target, args)) = parse_call_like(input)? {
         return Ok(Divert {
             target,
@@ -200,6 +206,17 @@ pub fn parse_divert(input: &str) -> Result<Divert, CompilerError> {
         target: input.trim().to_owned(),
         arguments: Vec::new(),
     })
+}
+
+/// `<- target` or `<- target(args)`: a thread cannot be started without a target.
+pub fn parse_thread_divert(input: &str) -> Result<Divert, CompilerError> {
+    if input.trim().is_empty() {
+        return Err(CompilerError::invalid_source(
+            "expected target for new thread after '<-'".to_owned(),
+        ));
+    }
+
+    parse_divert(input)
 }
 
 pub fn parse_divert_line(input: &str) -> Result<Vec<Node>, CompilerError> {
@@ -226,6 +243,11 @@ pub fn parse_divert_line(input: &str) -> Result<Vec<Node>, CompilerError> {
                     }
                 };
                 let tname = rest[..open].trim().to_owned();
+                if tname.is_empty() {
+                    return Err(CompilerError::invalid_source(
+                        "invalid divert target".to_owned(),
+                    ));
+                }
                 let args_str = &rest[open + 1..close];
                 let mut args = Vec::new();
                 for arg_str in crate::parser::expression::split_top_level_commas(args_str) {
@@ -264,6 +286,11 @@ pub fn parse_divert_line(input: &str) -> Result<Vec<Node>, CompilerError> {
                 }
             };
             let target = segment[..open].trim().to_owned();
+            if target.is_empty() {
+                return Err(CompilerError::invalid_source(
+                    "invalid divert target".to_owned(),
+                ));
+            }
             let args_str = &segment[open + 1..close];
             let mut args = Vec::new();
             for arg_str in crate::parser::expression::split_top_level_commas(args_str) {
